@@ -258,8 +258,10 @@ def parse_kani(text):
     solver_dp = sum(float(x) for x in re.findall(r"Runtime decision procedure: ([0-9.eE+-]+)s", text))
     vt = re.search(r"Verification Time: ([0-9.]+)s", text)
     stubs = re.findall(r"^\s*- Stub: (.*)$", text, re.M)
+    tail = text[-3000:]
+    abnormal = bool(re.search(r"(?i)\bkilled\b|signal|out of memory|CBMC (crashed|failed)|exit status: 137|status 137|appears to have run out of memory", tail))
     return dict(checks=checks, verdict=verdict, solver_s=max(solver, solver_dp), vtime=float(vt.group(1)) if vt else None,
-                stubs=stubs)
+                stubs=stubs, abnormal=abnormal)
 
 
 def base_env(target_dir):
@@ -352,7 +354,7 @@ class Runner:
         unsupported = [c for c in failed if "is not currently supported by Kani" in c["desc"] or "unsupported" in c["desc"].lower()]
         r.failed = [dict(name=c["name"], desc=c["desc"], loc=c["loc"]) for c in failed]
         if r.checks == 0:
-            r.status, r.reason = "undecided", "zero obligations generated (vacuous harness)"
+            r.status, r.reason = "undecided", ("verifier back end terminated abnormally (killed / out of memory): no obligation reported" if pk.get("abnormal") else "zero obligations generated (vacuous harness)")
             return
         if unwind_fail:
             r.status, r.reason = "undecided", "unwinding assertion failed (bound too small): " + unwind_fail[0]["loc"]
